@@ -26,6 +26,7 @@ type step struct {
 type script struct {
 	U       *universe
 	Genesis []*absDiff // canonical blocks built before step 0
+	Canon0  []*canonBlock // canonical reference before step 0
 	Steps   []*step
 	AllTx   []string // every transaction hash the script ever emits
 	defs    map[string]core.ClassDefinition
@@ -346,6 +347,7 @@ func genScript(rng *rand.Rand, n int) *script {
 		g.cm.advance(d)
 		s.Genesis = append(s.Genesis, d)
 	}
+	s.Canon0 = g.cm.snapshot()
 	for i := 0; i < n; i++ {
 		o := g.next()
 		st := &step{Op: o}
